@@ -701,6 +701,7 @@ def rewind_in_progress(
                     last_exception=in_progress.last_exception,
                     last_failed_at=in_progress.last_failed_at,
                     recovery_counts=dict(in_progress.recovery_counts),
+                    worker_id=in_progress.worker_id,
                 ),
             )
         step_state.in_progress = []
@@ -1065,7 +1066,8 @@ def _add_or_enqueue_event(
         # Assign the smallest available worker id
         used = set(x.worker_id for x in state.in_progress)
         id_candidates = [i for i in range(state.config.num_workers) if i not in used]
-        id = id_candidates[0]
+        # an interrupted execution goes back to the slot it had (EventAttempt.worker_id)
+        id = event.worker_id if event.worker_id in id_candidates else id_candidates[0]
         state_copy = state._deepcopy()
         shared_state: StepWorkerState = StepWorkerState(
             step_name=step_name,
